@@ -6,6 +6,7 @@ package c05
 
 import (
 	"bufio"
+	"bytes"
 	"encoding/hex"
 	"encoding/json"
 	"fmt"
@@ -406,7 +407,7 @@ func childFile(b core.Batch, p params, o *core.Obs) {
 	ch, err := fn(func(c pushers.Channel) error {
 		fb := c.(*fschannel.FileBackend)
 		fb.File = path
-		fb.MaxSize = 1 << 40
+		fb.MaxSize = 1 << 20 // the log rotates many times during the batch: lines are looked for in every file
 		return nil
 	})
 	if err != nil {
@@ -449,15 +450,31 @@ func childFile(b core.Batch, p params, o *core.Obs) {
 		}(g)
 	}
 	wg.Wait()
+	// payloads of 32..64 KiB (lines of 100..200 KB) in one burst: larger than the writer's buffer and a good part
+	// of the maximum file size each
+	for i := total; i < total+40; i++ {
+		r := core.NewRng(b.Seed, "C05/file-large", i)
+		want[i] = r.Bytes(r.Range(32<<10, 64<<10))
+		ch.Send(event.New(event.Custom("stamp", i), event.Payload(want[i]), event.SourceAddr(&net.TCPAddr{IP: net.IPv4(10, 9, byte(i>>8), byte(i)), Port: i % 65536})))
+	}
+	total += 40
 	time.Sleep(2500 * time.Millisecond)
-	f, err := os.Open(path)
-	if err != nil {
-		ob.bad("file-missing", "log file not present after the flush interval: %v", err)
+	files, _ := filepath.Glob(path + "*")
+	if len(files) == 0 {
+		ob.bad("file-missing", "log file not present after the flush interval")
 		o.EmitX("ctor", ob)
 		return
 	}
-	defer f.Close()
-	sc := bufio.NewScanner(f)
+	var all bytes.Buffer
+	for _, fn := range files {
+		fb, _ := os.ReadFile(fn)
+		if len(fb) > 0 && fb[len(fb)-1] != '\n' {
+			ob.bad("file-line", "%s does not end with a newline", filepath.Base(fn))
+			fb = append(fb, '\n')
+		}
+		all.Write(fb)
+	}
+	sc := bufio.NewScanner(&all)
 	sc.Buffer(make([]byte, 1<<20), 64<<20)
 	seen := map[int]int{}
 	for sc.Scan() {
